@@ -12,7 +12,7 @@ import re
 from . import common, items, l2
 from .l2 import Case
 
-IMPORTS = "use ::derive_more; use ::rt::{Tag, Scalar, Leaf}; use ::core::marker::PhantomData; use super::{LtTag, Tr};"
+IMPORTS = "use ::derive_more; use ::rt::{Tag, Scalar, Leaf}; use ::core::marker::PhantomData; use super::{LtTag, Tr, Two};"
 
 TRAITS = ("Debug Display Binary Octal LowerHex UpperHex LowerExp UpperExp Pointer From Into TryFrom TryInto FromStr AsRef AsMut Deref DerefMut Index IndexMut "
           "IntoIterator Iterator Error Add Sub Mul Div Rem Shl Shr BitAnd BitOr BitXor Not Neg AddAssign SubAssign MulAssign DivAssign RemAssign ShlAssign ShrAssign "
